@@ -797,5 +797,11 @@ func (c *Client) Do(ctx context.Context, q Query) (err error) {
 		return nil
 	})
 	defer verifAt(ctx, c, "D.ret")
-	return g.Wait()
+	if err = g.Wait(); err != nil && !c.IsClosed() {
+		// The client stays usable (e.g. after a server exception): drop the
+		// output that was encoded for the failed query but not flushed yet,
+		// so it is not sent in front of the next request.
+		c.writer = proto.NewWriter(c.conn, new(proto.Buffer))
+	}
+	return err
 }
